@@ -22,6 +22,7 @@ type StoreCfg struct {
 	Schema schema.Config     `json:"schema"`
 	Tokens map[string]string `json:"tokens"` // model token -> real string
 	Deep   bool              `json:"deep"`
+	Prop   string            `json:"prop"`
 }
 
 type storeReport struct {
@@ -163,7 +164,7 @@ func runOne(dir string, cfg *StoreCfg, idx int, steps []storerun.Step) (r *store
 		return nil, "env: " + err.Error()
 	}
 	defer env.Close()
-	r = &storerun.Runner{Env: env, Idx: idx, Deep: cfg.Deep}
+	r = &storerun.Runner{Env: env, Idx: idx, Deep: cfg.Deep, Prop: cfg.Prop}
 	defer func() {
 		if p := recover(); p != nil {
 			panicMsg = fmt.Sprintf("behaviour %d: panic: %v", idx, p)
